@@ -14,13 +14,25 @@ def l2(quick, thorough):
     return dict(L2, quick=quick, thorough=thorough)
 
 
+SCHED = {"ws": "sched", "bin": "simsched", "engine": "sched", "chunk": 25_000}
+POLL = {"ws": "sched", "bin": "simsched", "engine": "poll", "chunk": 1_000}
+
+
+def sched(quick, thorough):
+    return dict(SCHED, quick=quick, thorough=thorough)
+
+
+def poll(quick, thorough):
+    return dict(POLL, quick=quick, thorough=thorough)
+
+
 def both(q1=320_000, t1=12_000_000, q2=96_000, t2=4_000_000):
     return [l1(q1, t1), l2(q2, t2)]
 
 
 PLAN = {
     "C01": {"level": "exploration", "parts": both()},
-    "C03": {"level": "exploration", "parts": [l2(160_000, 6_000_000)]},
+    "C03": {"level": "exploration", "parts": [l2(160_000, 6_000_000), sched(400_000, 20_000_000)]},
     "C04": {"level": "exploration", "parts": both()},
     "C05": {"level": "exploration", "parts": both()},
     "C06": {"level": "exploration", "parts": both()},
@@ -29,10 +41,13 @@ PLAN = {
     "C09": {"level": "exploration", "parts": [l2(160_000, 6_000_000)]},
     "C10": {"level": "exploration", "parts": [l2(160_000, 6_000_000)]},
     "C11": {"level": "exploration", "parts": [l2(160_000, 6_000_000)]},
-    "C12": {"level": "exploration", "parts": [l2(160_000, 6_000_000)]},
+    "C12": {"level": "exploration", "parts": [l2(160_000, 6_000_000), sched(400_000, 20_000_000)]},
     "C13": {"level": "exploration", "parts": [l2(160_000, 6_000_000)]},
     "C14": {"level": "exploration", "parts": [l2(96_000, 3_000_000)]},
-    "C15": {"level": "exploration", "parts": [l2(160_000, 6_000_000)]},
+    "C15": {"level": "exploration", "parts": [l2(160_000, 6_000_000), sched(400_000, 20_000_000)]},
+    "C17": {"level": "exploration", "parts": [sched(800_000, 40_000_000)]},
+    "C18": {"level": "exploration", "parts": [sched(800_000, 40_000_000)]},
+    "C20": {"level": "fault_enumeration", "parts": [poll(32_000, 1_600_000)]},
     "C16": {
         "level": "exploration",
         "parts": [l1(64 * 3456, 2000 * 3456), l2(100_000, 4_000_000)],
@@ -51,6 +66,14 @@ ASSUMPTIONS = [
 ]
 
 COMPONENTS = {
+    "sched": {
+        "real": ["cachelito-core, cachelito-macros, cachelito-async-macros, cachelito-macro-utils compiled from /repo (same sources)", "the corpus expansions", "fastrand"],
+        "stand_in": ["parking_lot::{Mutex,RwLock} = sim/shims/parking_lot on shuttle::sync", "dashmap::DashMap = sim/shims/dashmap (1/2/4 shards of scheduled RwLock<BTreeMap>)", "once_cell::sync::{Lazy,OnceCell} = sim/shims/once_cell (execution-scoped, scheduled Once)", "std::sync::Once in expansions = shuttle::sync::Once", "thread scheduler = shuttle RandomScheduler / PctScheduler seeded per execution", "clock, registry map ordering (seams)", "statistics atomics get a scheduling point before every operation (seam)"],
+    },
+    "poll": {
+        "real": ["cachelito-core and cachelito-async-macros compiled from /repo", "the async corpus expansions (real generated futures)"],
+        "stand_in": ["executor = the simulator polling by hand with a no-op waker", "lock shims as in sched (a guard kept across an await is reported instead of hanging)", "clock, bodies, predicates"],
+    },
     "l2": {
         "real": ["cachelito-macros and cachelito-async-macros (proc-macros compiled from /repo, expanding the 250-function corpus)", "cachelito-macro-utils", "cachelito-core incl. InvalidationRegistry and stats_registry", "parking_lot", "dashmap", "once_cell", "std::sync::Once", "real OS threads as actors (one runs at a time)", "fastrand"],
         "stand_in": ["clock (verif_seams::sim_std::time)", "registry map ordering (BTreeMap via verif_seams::sim_std_det)", "decorated bodies, predicates and estimator of the user type (harness world)", "async executor (the simulator polls the futures itself)"],
